@@ -266,7 +266,7 @@ def run(ctx):
     maxL = 3 if thorough else 2
     ctx.rule = ("merge chains of length 0..%d; own key set per level from %s (values by key and level: int, str, list / DataFrame); "
                 "parent provenance per link in {computed in the nested call, memoized and read back from disk after reopening, "
-                "memoized and served by the memory cache, built in memory and never serialized (lowest levels)}; staging kinds all in-memory / all on-disk / alternating / in-memory over a defaultdict; chains whose levels are all stored under one shared key override; backends "
+                "memoized and served by the memory cache, built in memory and never serialized (lowest levels)}; staging kinds all in-memory / all on-disk / alternating / in-memory over a defaultdict; chains whose levels are all stored under one shared key override; chains over keys that hold equal content (two keys of one level, the same keys at several levels, two None values); backends "
                 "filesystem, filesystem+cache, memory. distinct = (backend, key sets, staging, provenance)." % (maxL, KEYSETS))
     tasks = []
     for L in range(maxL + 1):
@@ -292,6 +292,19 @@ def run(ctx):
                     if L >= 1 and kinds[0] in ("mem", "disk") and len(set(kinds)) == 1:
                         for prov in itertools.product(provs, repeat=L):
                             tasks.append((kind, [list(k) for k in keysets], list(kinds), list(prov), True))
+    # keys holding EQUAL content (one stored object behind several entries of one level, and of several levels)
+    dup = [["e", "f"], ["g", "h"], ["a"], ["e"], []]
+    for L in (1, 2):
+        for keysets in itertools.product(dup, repeat=L + 1):
+            if not any(len(k) == 2 for k in keysets):
+                continue
+            for kinds in (("mem",) * (L + 1), ("disk",) * (L + 1)):
+                for kind in ("fs", "fsc", "mem"):
+                    if L == 2 and not thorough and (kind == "mem" or kinds[0] == "disk"):
+                        continue
+                    provs = {"fs": ("fresh", "disk"), "fsc": ("fresh", "disk", "cache"), "mem": ("fresh", "cache")}[kind]
+                    for prov in itertools.product(provs, repeat=L):
+                        tasks.append((kind, [list(k) for k in keysets], list(kinds), list(prov)))
     if ctx.seed:
         import random
 
